@@ -593,6 +593,7 @@ func (x *apiExec) call(m string, a []string) string {
 		return "bad-op"
 	}
 	cls := "none"
+	stale := apiStaleLoc[m] && x.diverged()
 	if p := apiGuarded(func() { cls = x.invoke(m, a) }); p != "" {
 		x.last = "panic"
 		return p
@@ -604,8 +605,27 @@ func (x *apiExec) call(m string, a []string) string {
 	if d := deepClasses[m]; d != nil && d[cls] && os.Getenv("VERIF_NODEEP") == "" {
 		cls = "deep"
 	}
+	if stale && os.Getenv("VERIF_NODEEP") == "" {
+		cls = "deep"
+	}
 	x.last = cls
 	return "done"
+}
+
+// Methods that re-read a previous transaction from the node at the (height, byte range) the wallet recorded.
+// While the follower's tip is not on the node's chain the block at that height may be another one: the bytes
+// at the recorded range then decode to the same transaction, to another one or to nothing, depending on the
+// byte layout of the other block - not modelled; the error class is reported as `deep` on both sides.
+var apiStaleLoc = map[string]bool{"CreateRawTransaction": true, "SignRawTransaction": true, "GetTransactionFee": true}
+
+// diverged: the follower's tip is not a block of the node's best chain.
+func (x *apiExec) diverged() bool {
+	e := x.e
+	bh, bhash := e.wm.VerifBestBlock()
+	if int(bh) >= len(e.chain) {
+		return true
+	}
+	return e.blocks[e.chain[bh]].hash != bhash
 }
 
 // Exec runs one op under a watchdog: an op that does not return within apiOpTimeout is reported as
